@@ -19,7 +19,7 @@ def run(scn, seed):
     log = []
     try:
         class D(DataProvider):
-            def initialize(self, p, c): log.append(("adapter", "initialize"))
+            def initialize(self, p, c=None): log.append(("adapter", "initialize"))
             def set_listener(self, l): self.l = l
             def issnapshot_available(self, i): return True
             def subscribe(self, i):
@@ -28,7 +28,7 @@ def run(scn, seed):
                 sched.park(("abegin", "usb", i)); log.append(("adapter", "unsubscribe", i)); sched.park(("aend", "usb", i))
 
         class M(MetadataProvider):
-            def initialize(self, p, c): log.append(("adapter", "initialize"))
+            def initialize(self, p, c=None): log.append(("adapter", "initialize"))
             def notify_session_close(self, sid):
                 sched.park(("abegin", "nsc", sid)); log.append(("adapter", "nsc-begin", sid))
                 sched.park(("aend", "nsc", sid)); log.append(("adapter", "nsc-end", sid))
